@@ -134,7 +134,9 @@ int32_t tls13ImportPublicValue(ssl_t *ssl,
 
             if (ssl->sec.eccKeyPub != NULL)
             {
-                psEccClearKey(ssl->sec.eccKeyPub);
+                /* Clear AND release: psEccNewKey below allocates a new
+                   key structure (a repeated key_share would leak it). */
+                psEccDeleteKey(&ssl->sec.eccKeyPub);
             }
 
             rc = psEccNewKey(ssl->hsPool, &ssl->sec.eccKeyPub, curve);
